@@ -71,7 +71,7 @@ def is_string_form(rt, tup):
         if x[0] == "phi":
             return form(x[2]) and form(x[3]) and all(un(y) for y in P.subterms(x[1]) if y[0] == "call" and y[1] == "urllib.parse.urlunsplit")
         return False
-    return form(rt)
+    return form(P.strip_inl(rt))  # a helper that only wraps the cut stands for its body
 
 
 def body_function(repo, ref):
